@@ -57,6 +57,7 @@ inductive Cond
   | numLtWordPred (n : Nat) (w : WE) -- `n < w - 1`
   | numLtNum (a b : Nat)        -- `a < b` (numeric locals)
   | lenCapBad (cs : Nat)        -- `count - cs.cap <= 0 || !janet_checkint(s->captures->data[cs.cap])`
+  | valTruthy (v : Nat)         -- `janet_truthy(v)`
   | not (c : Cond)
   | and (a b : Cond)
   | or (a b : Cond)
@@ -70,6 +71,10 @@ inductive VE
   | const (k : Nat)             -- s->constants[rule[k]]
   | arrOf (cs n : Nat)          -- janet_array(n) filled by safe_memcpy from s->captures->data + cs.cap, count = n
   | capAt (cs : Nat) (w : WE)   -- s->captures->data[cs.cap + w]
+  | nil                         -- janet_wrap_nil()
+  | replaceOf (k cs : Nat)      -- the `switch (janet_type(constant))` of RULE_REPLACE / RULE_MATCHTIME on s->constants[rule[k]]:
+                                -- the constant itself, a struct / table lookup of the last capture, or a function applied to the
+                                -- captures above cs.cap (with the C-stack charge around the call)
   deriving Repr, DecidableEq
 
 /-- non-branching statements -/
@@ -161,6 +166,7 @@ def evalCond (E : Env) (O : Operands ρ) (L : Loc) (s : St) : Cond → Bool
   | .opIs n => O.word 0 == n
   | .numLtWordPred n w => decide (L.num n < evalWE O w - 1)
   | .numLtNum a b => decide (L.num a < L.num b)
+  | .valTruthy v => truthy (L.val v)
   | .lenCapBad c =>
     match (s.caps.drop (L.cs c).cap).head? with
     | some (.int n) => !checkint n
@@ -185,6 +191,10 @@ def evalVE (E : Env) (O : Operands ρ) (L : Loc) (s : St) : VE → Except Err Va
     match s.caps[(L.cs c).cap + evalWE O w]? with
     | some v => .ok v
     | none => .error .oob
+  | .nil => .ok .nil
+  | .replaceOf kk c => do
+    callGuard E s.depth (O.const kk)
+    Op.replaceValue (O.const kk) s (L.cs c)
 
 /-- a non-branching statement: new locals and state, or a raised error -/
 def execStmt (E : Env) (k : OK ρ) (O : Operands ρ) (L : Loc) (s : St) : Stmt → Except Err (Loc × St)
@@ -323,6 +333,10 @@ def runL (E : Env) (k : OK ρ) (O : Operands ρ) (fuel : Nat) (p : Prog) (s : St
 /-- sub-rule runners that leave the text window as they found it: hypothesis of the loop theorems whose model counterpart counts
     positions (`Op.toLoop`); true of `Op.run` (`Props.C12.op_run_keeps_window`, from `op_eq_den`) -/
 def KeepsWindow (k : OK ρ) : Prop := ∀ r s p res s', k r s p = .ok (res, s') → s'.textEnd = s.textEnd
+
+/-- sub-rule runners that return with the depth budget they were given (true of `Op.run`: `Props.C12.depth_balanced`); used
+    where the C reads `s->depth` after a sub-rule call (the C-stack charge of RULE_REPLACE / RULE_MATCHTIME) -/
+def KeepsDepth (k : OK ρ) : Prop := ∀ r s p res s', k r s p = .ok (res, s') → s'.depth = s.depth
 
 /-- operand layout of the instructions covered (which `rule[k]` is which field of the decoded instruction; the decoder
     `Decode.decode`, tied by `decode_sizes_agree` and by correspondence, reads the same positions) -/
